@@ -73,3 +73,67 @@ class LoopSpec:
         # j == n: after the loop
         if s.orelse:
             ip.exec_block(s.orelse, env)
+
+
+class GeneratorSpec:
+    """generator functions: every `yield v` is reported to on_yield(ip, st, v, node, env), which records the value in ghost
+    state and may raise obligations that must hold AT the yield (the consumer may stop pulling afterwards)"""
+
+    def __init__(self, on_yield, at_end=None):
+        self.on_yield, self._at_end = on_yield, at_end
+
+    def install(self, ip, ctx, st):
+        ip.yields = lambda ip_, v, node, env: self.on_yield(ip_, st, v, node, env)
+
+    def at_end(self, ip, ctx, st):
+        if self._at_end is not None:
+            self._at_end(ip, st)
+
+
+class CatList:
+    """a Python list of arrays/tables abstracted to (number of items, their concatenation): exact for append, len,
+    [0] of a singleton, np.concatenate, sizes, and passing on"""
+
+    def __init__(self, count, cat):
+        self.count, self.cat = count, cat
+
+    def getattr(self, ip, name, lineno):
+        if name == "append":
+            return _Append(self)
+        raise Unsupported("CatList.%s" % name)
+
+    def sym_len(self, ip):
+        return self.count
+
+    def getitem(self, ip, idx, lineno):
+        from .core import conc
+        if conc(idx) == 0:
+            ip.ctx.check("%s:catlist.singleton@L%s" % (ip.ctx.fname, lineno), I(self.count) == 1, "safety", lineno,
+                         "list[0] is used as the whole data only when the list has one item")
+            return self.cat
+        raise Unsupported("CatList index")
+
+
+class _Append:
+    def __init__(self, cl):
+        self.cl = cl
+
+    def sym_call(self, ip, args, kwargs, lineno):
+        from .core import conc, Ite, SArr
+        a = args[0]
+        cl = self.cl
+        f, g, n0 = cl.cat.snapshot(), a.snapshot(), cl.cat.length
+        cl.cat = SArr.fresh(conc(I(n0) + I(a.length)), lambda j: Ite(I(j) < I(n0), f(j), g(I(j) - I(n0))))
+        cl.count = conc(I(cl.count) + 1)
+
+
+def as_catlist(x):
+    from .core import SArr
+    if isinstance(x, CatList):
+        return x
+    if isinstance(x, list):
+        cl = CatList(0, SArr.fresh(0, lambda j: 0))
+        for a in x:
+            _Append(cl).sym_call(None, [a], {}, None)
+        return cl
+    raise Unsupported("not a list of arrays: %r" % (x,))
